@@ -44,7 +44,7 @@ def parseOutcome : String → Option Outcome
   | "ok" => some .ok | "fail" => some .fail | "failhold" => some .fail | "failmsg" => some .failmsg
   | "gtorun" => some .gtorun | "gtorunforeign" => some .gtorun | "gtoforeign" => some .gto
   | "cancelrun" => some .cancelrun | "silent" => some .silent | "gto" => some .gto | "cancel" => some .cancel
-  | "precancel" => some .precancel
+  | "precancel" => some .precancel | "slowdial" => some .cancel
   | "badstart" => some .badstart | "stranger" => some .stranger | "readyerr" => some .readyerr
   | "comm" => some .comm | "subset" => some .subset | _ => none
 
